@@ -36,6 +36,7 @@ def gen_case(rng):
         fmt=rng.choice(["pin", "parquet"]),
         seed=rng.randrange(1000),
         data_seed=rng.randrange(1 << 30),
+        two_good=rng.random() < 0.5,     # two features of similar power: folds may disagree on the best one
     )
 
 
@@ -56,11 +57,15 @@ def run_case(chk, case):
         off = 0
         for k in range(case["nfiles"]):
             df = mkdata.make_psm_table(r, n_spectra=case["n_spectra"], max_per_spectrum=case["max_per"], n_feat=2,
-                                       label_enc=case["enc"], optional=("ExpMass",), signal=4.0)
+                                       label_enc=case["enc"], optional=("ExpMass",), signal=4.0,
+                                       good_feats=(0, 1) if case.get("two_good") else (0,))
             df["rowid"] = np.arange(off, off + len(df))
             df["SpecId"] = [f"f{k}_{i}" for i in range(len(df))]
             if case["best_low"]:
                 df["feat0"] = -df["feat0"]
+            if case.get("two_good"):
+                # name the second informative feature so that it sorts before the first one
+                df = df.rename(columns={"feat1": "afeat"})
             off += len(df)
             tabs.append(df)
             dss.append(mkdata.read_dataset(mkdata.write_table(df, d / f"in{k}.{case['fmt']}")))
@@ -132,6 +137,7 @@ def run_case(chk, case):
         chk.count("est", case["est"]); chk.count("enc", case["enc"]); chk.count("best_low", case["best_low"])
         chk.count("all_trained", all_trained); chk.count("decision", "feature" if decision != "model" else "model")
         chk.count("fmt", case["fmt"]); chk.count("nfiles", case["nfiles"])
+        chk.count("folds_agree_on_best_feature", len({m[1] for m in ms}) == 1)
         key = (case["data_seed"], case["enc"], case["best_low"], case["est"], case["folds"])
         chk.case(None, key if (case["est"] != "good" or case["best_low"]) else None,
                  sample=dict(case={k: str(v) for k, v in case.items()}, models=ms, pred_total=pred,
